@@ -269,7 +269,13 @@ class SchemaGenerator(mmgen.Generator):
 
 
 def generate_model(rng: random.Random, index: int) -> mmgen.Model:
-    return SchemaGenerator(rng, default_profile(index)).generate()
+    model = SchemaGenerator(rng, default_profile(index)).generate()
+    if index % 3 == 1:
+        # same meta-model, enumerations and constrained primitives declared in another
+        # order (a constrained primitive may come before its parent)
+        model.text = mmgen.shuffle_class_order(model.text, rng)
+        model.feature("declaration-order-permuted")
+    return model
 
 
 # ======================================================================= recogniser
